@@ -219,3 +219,216 @@ proof!(c13_name_spellings, 8, {
     forget(d3);
     forget(sc);
 });
+
+// ---------------------------------------------------------------------------
+// C03: Normalized Paths (RFC 9535 2.7), real core::fmt (no format stub).
+fn path_is(p: &str, exp: &[u8], n: usize) -> bool {
+    let b = p.as_bytes();
+    if b.len() != n {
+        return false;
+    }
+    let mut i = 0;
+    while i < n {
+        if b[i] != exp[i] {
+            return false;
+        }
+        i += 1;
+    }
+    true
+}
+/// writes prefix + '[' + decimal(i) + ']' into out, returns length (i <= 9999)
+fn spec_idx_path(prefix: &[u8], i: usize, out: &mut [u8; 24]) -> usize {
+    let mut n = 0;
+    while n < prefix.len() {
+        out[n] = prefix[n];
+        n += 1;
+    }
+    out[n] = b'[';
+    n += 1;
+    let d = [(i / 1000) % 10, (i / 100) % 10, (i / 10) % 10, i % 10];
+    let mut started = false;
+    let mut k = 0;
+    while k < 4 {
+        if d[k] != 0 || started || k == 3 {
+            out[n] = b'0' + d[k] as u8;
+            n += 1;
+            started = true;
+        }
+        k += 1;
+    }
+    out[n] = b']';
+    n + 1
+}
+
+proof_fmt!(c03_idx_path, 12, {
+    let node = Mini::Null;
+    let i: usize = kani::any();
+    kani::assume(i <= 9999);
+    let p = Pointer::idx(&node, String::from("$"), i);
+    let mut exp = [0u8; 24];
+    let n = spec_idx_path(b"$", i, &mut exp);
+    assert!(path_is(&p.path, &exp, n), "index step of a Normalized Path must be [<decimal index>]");
+    kani::cover!(i >= 1000, "four digits");
+    kani::cover!(i < 10, "one digit");
+    forget(p);
+});
+
+// name step for a one-byte ASCII name that needs no escaping (role A)
+proof_fmt!(c03_key_path_plain, 12, {
+    let node = Mini::Null;
+    let c: u8 = kani::any();
+    kani::assume(c >= 0x20 && c < 0x7f && c != b'\'' && c != b'\\');
+    let buf = [c];
+    let p = Pointer::key(&node, String::from("$"), str_over(&buf, 1));
+    let exp = [b'$', b'[', b'\'', c, b'\'', b']'];
+    assert!(path_is(&p.path, &exp, 6), "name step of a Normalized Path must be ['<name>']");
+    kani::cover!(c == b'"', "double quote needs no escaping in a normalized path");
+    kani::cover!(c == b'a', "letter");
+    forget(p);
+});
+// names that need escaping: ' \ and control characters (role B, finding F3)
+proof_fmt!(c03_roleb_key_path_escaped, 12, {
+    let node = Mini::Null;
+    let c: u8 = kani::any();
+    kani::assume(c == b'\'' || c == b'\\' || c == b'\n' || c == b'\t');
+    let buf = [c];
+    let p = Pointer::key(&node, String::from("$"), str_over(&buf, 1));
+    let e = if c == b'\n' { b'n' } else if c == b'\t' { b't' } else { c };
+    let exp = [b'$', b'[', b'\'', b'\\', e, b'\'', b']'];
+    assert!(path_is(&p.path, &exp, 7), "quote, backslash and control characters must be escaped in a Normalized Path");
+    forget(p);
+});
+
+// routes: the path appended is that of the real location
+macro_rules! c03_index_route {
+    ($name:ident, $len:expr) => {
+        proof_fmt!($name, 12, {
+            let a = marker_array($len);
+            let doc = Mini::Arr(a);
+            let i: i64 = kani::any();
+            kani::assume(i >= -($len as i64) - 1 && i <= $len as i64);
+            let d = process_index(root_ptr(&doc), &i);
+            if let Data::Ref(p) = &d {
+                let k = rfc_index(i, $len as i64).unwrap_or(0);
+                let mut exp = [0u8; 24];
+                let n = spec_idx_path(b"$", k, &mut exp);
+                assert!(path_is(&p.path, &exp, n), "a negative index must be reported as its non-negative normalized index");
+            }
+            kani::cover!(matches!(d, Data::Ref(_)) && i < 0, "negative index in range");
+            forget(d);
+        });
+    };
+}
+c03_index_route!(c03_index_route_len3, 3);
+
+proof_fmt!(c03_slice_route, 12, {
+    let a = marker_array(3);
+    let doc = Mini::Arr(a);
+    let (s, e, st) = (any_opt_ijson(), any_opt_ijson(), any_opt_ijson());
+    // negative steps only (the case where the reported index needs care), end absent,
+    // start absent or 0..2 (real formatting of every path makes wider domains run out of memory)
+    kani::assume(st == Some(-1) || st == Some(-2));
+    kani::assume(e.is_none());
+    kani::assume(s.unwrap_or(0) >= 0 && s.unwrap_or(0) <= 2);
+    let d = process_slice(root_ptr(&doc), &s, &e, &st);
+    // every reported path is $[k] where k is the position of the reported node
+    if let Data::Refs(v) = &d {
+        let mut j = 0;
+        while j < v.len() {
+            let mut k = 0;
+            let mut pos = 9;
+            while k < 3 {
+                if core::ptr::eq(v[j].inner, &a[k]) {
+                    pos = k;
+                }
+                k += 1;
+            }
+            let mut exp = [0u8; 24];
+            let n = spec_idx_path(b"$", pos, &mut exp);
+            assert!(pos < 3 && path_is(&v[j].path, &exp, n), "a slice must report each element under its own index");
+            j += 1;
+        }
+        kani::cover!(v.len() == 2 && st.unwrap_or(1) == -2, "step -2 selecting two elements");
+        kani::cover!(v.len() == 3 && st.unwrap_or(1) < 0, "reverse slice of the whole array");
+    }
+    forget(d);
+});
+
+proof_fmt!(c03_wildcard_route, 12, {
+    let mut sc = Scratch::new();
+    sc.set(0, "b", Mini::Int(kani::any()));
+    sc.set(1, "a", Mini::Null);
+    let doc = sc.obj(2);
+    let d = process_wildcard(Pointer::new(&doc, String::from("$[7]")));
+    if let Data::Refs(v) = &d {
+        assert!(v.len() == 2, "two members");
+        assert!(path_is(&v[0].path, b"$[7]['b']", 9), "wildcard must report a member under its own name, appended to the parent's path");
+        assert!(path_is(&v[1].path, b"$[7]['a']", 9), "wildcard must report a member under its own name, appended to the parent's path");
+    } else {
+        assert!(false, "wildcard on a two-member object must select two nodes");
+    }
+    let a = marker_array(2);
+    let doc2 = Mini::Arr(a);
+    let d2 = process_wildcard(Pointer::new(&doc2, String::from("$['x']")));
+    if let Data::Refs(v) = &d2 {
+        assert!(v.len() == 2, "two elements");
+        assert!(path_is(&v[0].path, b"$['x'][0]", 9) && path_is(&v[1].path, b"$['x'][1]", 9), "wildcard must report an element under its index");
+    } else {
+        assert!(false, "wildcard on a two-element array must select two nodes");
+    }
+    kani::cover!(true, "end reached");
+    forget(d);
+    forget(d2);
+    forget(sc);
+});
+
+// name selector spellings: the step is the member's name, not the selector text
+proof_fmt!(c03_key_route_plain, 12, {
+    let mut sc = Scratch::new();
+    sc.set(0, "a", Mini::Int(kani::any()));
+    let doc = sc.obj(1);
+    let d1 = process_key(root_ptr(&doc), "a");
+    let d2 = process_key(root_ptr(&doc), "'a'");
+    let ok = |d: &Data<Mini>| matches!(d, Data::Ref(p) if path_is(&p.path, b"$['a']", 6));
+    assert!(ok(&d1), "shorthand name must be reported as ['a']");
+    assert!(ok(&d2), "single-quoted name must be reported as ['a']");
+    kani::cover!(true, "end reached");
+    forget(d1);
+    forget(d2);
+    forget(sc);
+});
+proof_fmt!(c03_rolec_key_route_dquote, 12, {
+    let mut sc = Scratch::new();
+    sc.set(0, "a", Mini::Int(kani::any()));
+    let doc = sc.obj(1);
+    let d3 = process_key(root_ptr(&doc), "\"a\"");
+    assert!(matches!(&d3, Data::Ref(p) if path_is(&p.path, b"$['a']", 6)), "double-quoted name must be reported as ['a']");
+    forget(d3);
+    forget(sc);
+});
+
+// concrete-parameter complement of c03_slice_route (the symbolic version is thorough-only):
+// [::-2] and [1::-1] on [m0,m1,m2]; only the element payloads are symbolic.
+proof_fmt!(c03_slice_route_fixed, 12, {
+    let mut sc = Scratch::new();
+    sc.elems[0] = Mini::Int(kani::any());
+    sc.elems[1] = Mini::Int(kani::any());
+    sc.elems[2] = Mini::Int(kani::any());
+    let doc = sc.arr_c(3);
+    let d = process_slice(root_ptr(&doc), &None, &None, &Some(-2));
+    if let Data::Refs(v) = &d {
+        assert!(v.len() == 2 && path_is(&v[0].path, b"$[2]", 4) && path_is(&v[1].path, b"$[0]", 4), "[::-2] on three elements must report $[2], $[0]");
+    } else {
+        assert!(false, "[::-2] on three elements must select two nodes");
+    }
+    let d2 = process_slice(root_ptr(&doc), &Some(1), &None, &Some(-1));
+    if let Data::Refs(v) = &d2 {
+        assert!(v.len() == 2 && path_is(&v[0].path, b"$[1]", 4) && path_is(&v[1].path, b"$[0]", 4), "[1::-1] on three elements must report $[1], $[0]");
+    } else {
+        assert!(false, "[1::-1] on three elements must select two nodes");
+    }
+    kani::cover!(true, "end reached");
+    forget(d);
+    forget(d2);
+    forget(sc);
+});
